@@ -156,7 +156,7 @@ theorem C15_new_only_loses_jobs :
 Without `rerun`, over a cache that holds successful results only (`Cached`), the loop is `Model.lean` started on that
 cache (`Sched/Cached.lean`): cached jobs are never executed, and precedence holds in the form "whatever is dispatched
 belongs to a node all of whose predecessors' jobs have their successful result on disk" at every instant.  With
-`rerun`, or over errored results, see the D71 witnesses below; the limit holds in every case (`C16_rerun`). -/
+`rerun`, or over errored results, see the D73 witnesses below; the limit holds in every case (`C16_rerun`). -/
 
 /-- a cache of successful results (no locks of other submissions, no errored results) -/
 def Cached (w0 : World) : Prop := ∀ c, w0 c = .idle ∨ w0 c = .ok
@@ -194,7 +194,7 @@ theorem C15_precedence_cached {wf : Wf} {k : Option Nat} {sorted : List NodeId} 
     loop ends successfully every node is done, every job of every node was executed in this submission and the
     outputs are this submission's values (no old value survives).
     (`Sched/RerunSync.lean`: without a limit every job a poll hands out is executed before the next poll, so no poll
-    reads a result this submission did not write.  With a limit, or an asynchronous worker: finding D71.) -/
+    reads a result this submission did not write.  With a limit, or an asynchronous worker: finding D73.) -/
 theorem C15_rerun_sync_unlimited {wf : Wf} {sorted : List NodeId} (hw : WellFormed wf sorted) (cfg : RCfg)
     (hr : cfg.rerun = true) (w0 : World) (fail : Ck → Bool) (fuel : Nat) :
     (runSyncR wf none sorted cfg w0 fail fuel).2.began = (runSyncR wf none sorted cfg w0 fail fuel).2.ended ∧
@@ -248,7 +248,7 @@ theorem diskWf_plain (wf : Wf) (cfg : RCfg) (h : cfg.oldv = wf.body) (ended : Li
     simp only at h
     simp only [h, ite_self]
 
-/-! ### submissions over pre-existing results (`Sched/Rerun.lean`): what the code does NOT guarantee (finding D71)
+/-! ### submissions over pre-existing results (`Sched/Rerun.lean`): what the code does NOT guarantee (finding D73)
 
 `a` = node 0 (checksum 10), `x` = node 1 (checksum 20), `b` = node 2 ← `x`, whose checksum is built from the value it
 reads from `x` (30 + value).  A body executed in this submission returns checksum + 1000, a result left by the earlier
@@ -268,7 +268,7 @@ def cacheR : World := fun c => if c = 10 ∨ c = 20 ∨ c = 550 then .ok else .i
 /-- `x` failed in the earlier submission (so `b` never ran) -/
 def cacheE : World := fun c => if c = 10 then .ok else if c = 20 then .err else .idle
 
-/-- D71 (i): `rerun=True` with `max_concurrent = 1`, synchronous loop.  The first poll returns `[a, x]`, cut to `[a]`;
+/-- D73 (i): `rerun=True` with `max_concurrent = 1`, synchronous loop.  The first poll returns `[a, x]`, cut to `[a]`;
     `x` stays queued, the next poll finds its OLD result and takes it as done: `x` is never re-executed, `b` is started
     from the old value (checksum 550) and the outputs mix the two submissions.  Without the limit every job is
     re-executed and `b` is built from the new value. -/
@@ -279,7 +279,7 @@ theorem C15_rerun_cut_job_keeps_old_result :
      (r.1, r.2.began, [0, 1, 2].map (outputsR wfR (cfgR true) r.2))) = (.success, [10, 20, 1050], [[1010], [1020], [2050]]) := by
   decide
 
-/-- D71 (i), errored first result: without `rerun` the failed job `x` would be retried by `Job.run`, but with
+/-- D73 (i), errored first result: without `rerun` the failed job `x` would be retried by `Job.run`, but with
     `max_concurrent = 1` it is cut from the first poll, found errored at the next one and never executed: no body runs at
     all and `x` ends in the `errored` table.  Without the limit `x` is retried and `b` runs. -/
 theorem C15_errored_result_not_retried :
@@ -290,7 +290,7 @@ theorem C15_errored_result_not_retried :
       (.success, [20, 1050], [], [[510], [1020], [2050]]) := by
   decide
 
-/-- D71 (ii): `rerun=True`, no limit, asynchronous loop.  `a` and `x` are dispatched together; `a` completes while the
+/-- D73 (ii): `rerun=True`, no limit, asynchronous loop.  `a` and `x` are dispatched together; `a` completes while the
     body of `x` has not started yet, so the poll finds the old result of `x`, starts `b` from it (checksum 550), and `b`
     executes while `x` is being re-executed: `b` ends before `x` does. -/
 theorem C15_rerun_stale_read_race :
@@ -301,7 +301,7 @@ theorem C15_rerun_stale_read_race :
      | _ => none) = some (.success, [10, 20, 550], [10, 550, 20], [[1010], [1020], [1550]]) := by
   decide
 
-/-- D71 (ii) with `readonly_caches`: the old result of `x` stays visible WHILE `x` is executing (the re-execution only
+/-- D73 (ii) with `readonly_caches`: the old result of `x` stays visible WHILE `x` is executing (the re-execution only
     clears the `cache_root`), so the poll after `a` completes starts `b` from the old value although the body of `x` is
     already running. -/
 theorem C15_rerun_readonly_stale_read :
@@ -310,6 +310,18 @@ theorem C15_rerun_readonly_stale_read :
          [.acquire 550, .finishOk 550, .finishOk 20, .complete 20, .complete 550]] with
      | .done o r => some (o, r.began, r.ended, [0, 1, 2].map (outputsR wfR cfgRo r))
      | _ => none) = some (.success, [10, 20, 550], [10, 550, 20], [[1010], [1020], [1550]]) := by
+  decide
+
+/-- D73 (ii), the crash: `a` = 0, `x` = 1, `y` = 2 ← `a`, `b` = 3 ← `x`, `y` (one job each, checksums 10, 20, 30, 40, all with
+    an old successful result).  `a` completes while `x` has not started: `x` is taken as done from its old result.  Then
+    the body of `x` starts (the old result is deleted) and `y` completes: `b` is started, but the result of `x` it has to
+    read is gone and the new one is not there yet — `LazyField._get_value` raises and the submission ends. -/
+theorem C15_rerun_lost_input :
+    (match runAsyncR ⟨⟨[0, 1, 2, 3], [(0, 2), (1, 3), (2, 3)], [], none⟩, fun n _ => [10 * (n + 1)], fun c => c + 1000⟩
+        none [0, 1, 2, 3] (cfgR true) (fun c => if c = 10 ∨ c = 20 ∨ c = 30 ∨ c = 40 then .ok else .idle)
+        [[.acquire 10, .finishOk 10, .complete 10], [.acquire 20, .acquire 30, .finishOk 30, .complete 30]] with
+     | .crash r => some (r.began, r.ended, (r.st.ns.get 1).successful, r.st.w 20)
+     | _ => none) = some ([10, 20, 30], [10, 30], [0], Truth.locked) := by
   decide
 
 end PydraModel.Sched
